@@ -827,12 +827,13 @@ class Engine(object):
         s.set('timeout', timeout_ms)
         for a in assumptions:
             s.add(a)
-        r = s.check()
+        r = hard_check(s, timeout_ms)
         return 'refutable' if r == z3.unsat else ('satisfiable' if r == z3.sat else 'not-refuted')
 
     # -- discharge ---------------------------------------------------------------------
     def discharge(self, o, timeout_ms=None):
         t0 = time.time()
+        kills0 = len(HARD_KILLS)
         if o.alt_assumptions is not None:
             s3 = z3.Solver()
             # (short: where the cut lemmas suffice the query is tiny; the full budget comes later)
@@ -840,7 +841,7 @@ class Engine(object):
             for a in o.alt_assumptions:
                 s3.add(a)
             s3.add(z3.Not(o.goal))
-            if s3.check() == z3.unsat:
+            if hard_check(s3, max(2000, (timeout_ms or self.timeout_ms) // 8)) == z3.unsat:
                 o.status, o.backend = 'discharged', 'z3'
                 o.detail = 'from the cut lemmas alone'
                 o.seconds = time.time() - t0
@@ -855,7 +856,7 @@ class Engine(object):
         for a in o.assumptions:
             s0.add(a)
         s0.add(z3.Not(o.goal))
-        if os.environ.get('PYVC_NO_EMATCH_FIRST') != '1' and s0.check() == z3.unsat:
+        if os.environ.get('PYVC_NO_EMATCH_FIRST') != '1' and hard_check(s0, max(2000, (3 * (timeout_ms or self.timeout_ms)) // 4)) == z3.unsat:
             o.status, o.backend = 'discharged', 'z3'
             o.seconds = time.time() - t0
             return o
@@ -865,7 +866,7 @@ class Engine(object):
         for a in o.assumptions:
             s.add(a)
         s.add(z3.Not(o.goal))
-        r = s.check()
+        r = hard_check(s, (timeout_ms or self.timeout_ms))
         o.seconds = time.time() - t0
         if r == z3.unsat:
             o.status = 'discharged'
@@ -875,17 +876,14 @@ class Engine(object):
         if r == z3.sat:
             o.status = 'refuted'
             o.backend = 'z3'
-            try:
-                o.model = s.model()
-            except Exception:
-                o.model = None
+            o.model = None      # (the query ran in a forked copy; counterexamples come from the bounded stand-in)
             return o
         # unknown: retry with another seed (only where no escalation will follow), then cvc5
         will_escalate = getattr(self, 'escalations_left', 0) > 0 and o.name in self.baseline_names
         for seed in (() if will_escalate else (self.seed + 1,)):
             s.set('random_seed', seed)
             s.set('timeout', (timeout_ms or self.timeout_ms))
-            r = s.check()
+            r = hard_check(s, (timeout_ms or self.timeout_ms))
             if r == z3.unsat:
                 o.status, o.backend = 'discharged', 'z3'
                 o.seconds = time.time() - t0
@@ -900,7 +898,7 @@ class Engine(object):
             for a in o.alt_assumptions:
                 s3.add(a)
             s3.add(z3.Not(o.goal))
-            if s3.check() == z3.unsat:
+            if hard_check(s3, (timeout_ms or self.timeout_ms)) == z3.unsat:
                 o.status, o.backend = 'discharged', 'z3'
                 o.detail = 'from the cut lemmas alone'
                 o.seconds = time.time() - t0
@@ -913,7 +911,7 @@ class Engine(object):
                 for a in o.assumptions:
                     s2.add(a)
                 s2.add(z3.Not(g))
-                if s2.check() == z3.unsat:
+                if hard_check(s2, (timeout_ms or self.timeout_ms) // 2) == z3.unsat:
                     o.status, o.backend = 'discharged', 'z3'
                     o.seconds = time.time() - t0
                     return o
@@ -934,7 +932,7 @@ class Engine(object):
                 for a in o.assumptions:
                     s4.add(a)
                 s4.add(z3.Not(o.goal))
-                r4 = s4.check()
+                r4 = hard_check(s4, big)
                 if r4 == z3.unsat:
                     o.status, o.backend = 'discharged', 'z3'
                     o.detail = 'after escalation'
@@ -947,7 +945,63 @@ class Engine(object):
             return o
         o.status = 'unknown'
         o.detail = 'z3: unknown; cvc5: %s' % r2
+        if len(HARD_KILLS) > kills0:
+            o.detail += '; %d z3 query(ies) killed at the hard wall-clock limit' % (len(HARD_KILLS) - kills0)
         return o
+
+
+_Z3_RESULTS = {'unsat': z3.unsat, 'sat': z3.sat, 'unknown': z3.unknown}
+HARD_KILLS = []
+
+
+def hard_check(solver, soft_ms):
+    """solver.check() with a HARD wall-clock limit.  z3's `timeout` is a request: a timer raises a flag that the
+    engine polls, and one query (quantifier instantiation feeding arithmetic internalisation, C01 under a loaded
+    machine) was seen not to poll it for more than fifteen minutes.  A check that can hang is a broken check, so every
+    query runs in a forked copy of this process, which is killed at 1.5 x the soft limit + 15 s; a killed query is
+    `unknown` (never a verdict).  The fork costs milliseconds (copy-on-write) and z3's timers work in the child."""
+    if os.environ.get('PYVC_NO_FORK') == '1':
+        return solver.check()
+    import select
+    import signal
+    r, w = os.pipe()
+    pid = os.fork()
+    if pid == 0:
+        code = 'error'
+        try:
+            os.close(r)
+            try:
+                import ctypes
+                ctypes.CDLL(None).prctl(1, signal.SIGKILL)   # PR_SET_PDEATHSIG: die with the worker
+            except Exception:
+                pass
+            code = str(solver.check())
+        except BaseException as e:
+            code = 'error:%s' % type(e).__name__
+        finally:
+            try:
+                os.write(w, code.encode())
+            finally:
+                os._exit(0)
+    os.close(w)
+    hard_s = 1.5 * soft_ms / 1000.0 + 15.0
+    try:
+        ready, _, _ = select.select([r], [], [], hard_s)
+        if not ready:
+            HARD_KILLS.append(round(hard_s, 1))
+            try:
+                os.kill(pid, signal.SIGKILL)
+            except OSError:
+                pass
+            return z3.unknown
+        out = os.read(r, 200).decode()
+        return _Z3_RESULTS.get(out, z3.unknown)
+    finally:
+        os.close(r)
+        try:
+            os.waitpid(pid, 0)
+        except OSError:
+            pass
 
 
 def run_cvc5(solver, timeout_s):
